@@ -17,6 +17,9 @@ type faultStore struct {
 	mu       sync.Mutex
 	enqCalls int
 	failAt   map[int]error // 1-based index of the Enqueue call (since the last arm) -> error to return
+	// batchErr, when set, is returned by the next EnqueueBatch instead of calling the store (one shot)
+	batchErr  error
+	batchHits int
 }
 
 var errInjected = errors.New("injected store fault")
@@ -40,6 +43,14 @@ func (f *faultStore) Enqueue(env queue.Envelope) error {
 }
 
 func (f *faultStore) EnqueueBatch(items []queue.Envelope) (int, error) {
+	f.mu.Lock()
+	if err := f.batchErr; err != nil {
+		f.batchErr = nil
+		f.batchHits++
+		f.mu.Unlock()
+		return 0, err
+	}
+	f.mu.Unlock()
 	if b, ok := f.Store.(queue.BatchEnqueuer); ok {
 		return b.EnqueueBatch(items)
 	}
